@@ -206,6 +206,9 @@ func (eval Evaluator) Add(op0 *rlwe.Ciphertext, op1 rlwe.Operand, opOut *rlwe.Ci
 
 		TBig := eval.parameters.RingT().ModulusAtLevel[0]
 
+		// Works on a copy: the scalar of the caller is not modified
+		op1 = new(big.Int).Set(op1)
+
 		// Sets op1 to the scale of op0
 		op1.Mul(op1, new(big.Int).SetUint64(op0.Scale.Uint64()))
 
@@ -492,7 +495,8 @@ func (eval Evaluator) Mul(op0 *rlwe.Ciphertext, op1 rlwe.Operand, opOut *rlwe.Ci
 
 		TBig := eval.parameters.RingT().ModulusAtLevel[0]
 
-		op1.Mod(op1, TBig)
+		// Works on a copy: the scalar of the caller is not modified
+		op1 = new(big.Int).Mod(op1, TBig)
 
 		// If op1 > T/2 then subtract T to minimize the noise
 		if op1.Cmp(new(big.Int).Rsh(TBig, 1)) == 1 {
@@ -1173,6 +1177,9 @@ func (eval Evaluator) MulThenAdd(op0 *rlwe.Ciphertext, op1 rlwe.Operand, opOut *
 		ringQ := eval.parameters.RingQ().AtLevel(level)
 
 		s := eval.parameters.RingT().SubRings[0]
+
+		// Works on a copy: the scalar of the caller is not modified
+		op1 = new(big.Int).Set(op1)
 
 		// op1 *= (op1.Scale / opOut.Scale)
 		if op0.Scale.Cmp(opOut.Scale) != 0 {
